@@ -21,16 +21,19 @@ use std::cell::RefCell;
 use std::io::Write;
 use std::os::unix::ffi::OsStrExt;
 use std::path::{Path, PathBuf};
-use std::sync::OnceLock;
+use std::sync::Mutex;
 
-static SCRIPT: OnceLock<Script> = OnceLock::new();
+static SCRIPT: Mutex<Option<&'static Script>> = Mutex::new(None);
 
+/// Install (or replace: several invocations may run in one process) the current script.
 pub fn install(script: Script) {
-    let _ = SCRIPT.set(script);
+    // leaked on purpose: a handful of scripts per process at most
+    let leaked: &'static Script = Box::leak(Box::new(script));
+    *SCRIPT.lock().expect("script lock") = Some(leaked);
 }
 
 pub fn script() -> Option<&'static Script> {
-    SCRIPT.get()
+    *SCRIPT.lock().expect("script lock")
 }
 
 pub fn marker(line: &str) {
